@@ -443,9 +443,20 @@ def run_property(mod, argv) -> int:
             mod.correspond(ctx)
         except TieBroken as e:
             ctx.tie_broken("correspondence", str(e))
+        except subprocess.TimeoutExpired:
+            raise
+        except Exception:
+            # the real code (or the harness driving it) raised where it does not on the tree the check was built for:
+            # the tie is broken; the search below looks for the concrete failing input
+            ctx.tie_broken("correspondence", "the correspondence run raised: " + traceback.format_exc()[-2500:])
         # 5: search on the real code; full budget when something broke
         budget = "thorough" if (ctx.thorough or ctx.broken or ctx.disagreements) else "quick"
-        mod.search(ctx, budget)
+        try:
+            mod.search(ctx, budget)
+        except subprocess.TimeoutExpired:
+            raise
+        except Exception:
+            ctx.tie_broken("oracle", "the search on the real code raised: " + traceback.format_exc()[-2500:])
         return finish(ctx, mod)
     except subprocess.TimeoutExpired as e:
         print(f"INFRA-ERROR timeout: {e}")
